@@ -156,13 +156,11 @@ def _handle_ConnectionUp (event):
 def _handle_LinkEvent (event):
   # When links change, update spanning tree
 
-  (dp1,p1),(dp2,p2) = event.link.end
-  if _prev[dp1][p1] is False:
-    if _prev[dp2][p2] is False:
-      # We're disabling this link; who cares if it's up or down?
-      #log.debug("Ignoring link status for %s", event.link)
-      return
-
+  # (We used to skip the update when both ends of the link were already
+  # blocked.  That also skipped the second direction of a new link between
+  # two switches that were both in the tree already -- the link stayed
+  # blocked even when it was the only one joining two parts of the network.
+  # _update_tree() only sends port_mods for ports that change.)
   _update_tree()
 
 
